@@ -5,6 +5,7 @@ import (
 	"encoding/json"
 	"errors"
 	"fmt"
+	"io"
 	"math"
 	"mime/multipart"
 	"net/http"
@@ -346,10 +347,15 @@ func NewFECase(g *Gen, id int) *Case {
 			if len(n.Fields) > 0 && g.R.P(50) {
 				q = "?" + url.QueryEscape(feKey(n.Fields[0], "json")) + "=decoy"
 			}
+			streamed := g.R.Fork(0xc1e4).P(15) // a body of unknown length (a chunked upload as a server sees it)
 			mkReq = func() *http.Request {
 				r, _ := http.NewRequest(meth, "http://example.com/p"+q, bytes.NewReader(body))
 				if nilBody {
 					r, _ = http.NewRequest(meth, "http://example.com/p"+q, nil)
+				} else if streamed {
+					r, _ = http.NewRequest(meth, "http://example.com/p"+q, struct{ io.Reader }{bytes.NewReader(body)})
+					r.ContentLength = -1
+					r.TransferEncoding = []string{"chunked"}
 				}
 				r.Header.Set("Content-Type", ct)
 				return r
